@@ -5,12 +5,12 @@ reg("C02", "model_checking",
     "DESIGN.md 5 C02")
 _CONC_NOTE = ("Trusted: virtual asyncio loop (FIFO ready queue kept, external events chosen by the explorer), simulated backend and peers, "
               "fingerprint completeness (no-fallback rule). Bounded: 2-4 callers, <=3 origins, limits <=2, <=1 fault and <=1 cancellation per execution; "
-              "sync pool under threads is C08's business.")
+              "the sync pool under threads is C08's business, with C04 / C05 / C06 running its failure-path scenarios for their own oracles.")
 reg("C01", "model_checking", "explicit-state exploration of the real AsyncConnectionPool on a virtual event loop (all event orders, state merging), token-echo oracle",
     "All orders of external events for each small concurrent scenario (HTTP/1.1 keep-alive framings, HTTP/2 multiplexing, proxies) are explored on the real pool and connections; every caller's status/body is compared with the token the independent peer echoed and the peer checks that a connection is reused only after the previous exchange finished both ways.",
     _CONC_NOTE, "DESIGN.md 5 C01")
-reg("C04", "model_checking", "explicit-state exploration on a virtual event loop with a limit invariant evaluated after every loop iteration",
-    "The invariant (len(pool.connections) <= N and open streams on behalf of pooled connections + connects in flight <= N) is evaluated after every loop iteration of every explored execution, for all event orders of each scenario, with faults/cancellations/evictions.",
+reg("C04", "model_checking", "explicit-state exploration on a virtual event loop with a limit invariant evaluated after every loop iteration, plus pre-emption-bounded exhaustive scheduling (CHESS) of the sync pool under real threads",
+    "The sync pool under real threads (baton scheduler, every schedule with <=1-2 pre-emptions at source lines of connection_pool.py or at lock/event/network operations; failure path with queued requests, slow connect failures) is judged by the same limit monitor. The invariant (len(pool.connections) <= N and open streams on behalf of pooled connections + connects in flight <= N) is evaluated after every loop iteration of every explored execution, for all event orders of each scenario, with faults/cancellations/evictions.",
     _CONC_NOTE, "DESIGN.md 5 C04")
 reg("C05", "fault_enumeration", "exhaustive fault-point and cancellation-point enumeration (deviation-bounded search) on the real code, sequential and virtual-loop worlds",
     "Every network operation of every connection type x every documented fault kind (both variants), and every loop-iteration boundary x {scope, native} cancellation (async), alone and with a second caller; afterwards pool bookkeeping, stuck-connection predicate and a behavioural capacity probe are checked.",
@@ -30,7 +30,7 @@ reg("C03", "exploration", "bounded-exhaustive enumeration of request shapes on t
     "Full product of method x target x header sequence x body form, HTTP/1.1 and HTTP/2, sync and async, first use and reuse (a sub-product again over the ten other connection types; transparent re-sends and cancellation of a caller sharing an HTTP/2 connection on the virtual loop): the bytes received by the simulated peer are decoded by an independent HTTP/1.1 parser / frame-level HTTP/2 peer and compared with the caller's request; illegal heads must raise LocalProtocolError with nothing written (HTTP/1.1).",
     _SEQ_NOTE, "DESIGN.md 5 C03")
 reg("C10", "exploration", "exhaustive enumeration of the configuration product and of near-miss origin sequences, judged from the backend ledger and the receiving peer",
-    "Every combination of scheme, port form, proxy mode, http1/http2 switches, ALPN outcome and sni_hostname, and every request sequence of length 2-3 over origin pairs that differ in one component: destination, TLS-iff-https/wss, SNI, ALPN offer and protocol choice are read from what the simulated peers saw.",
+    "Pools built as ConnectionPool(proxy=...) and as HTTPProxy / SOCKSProxy objects; pools without an ssl_context (the real default_ssl_context() with the ssl name re-bound inside httpcore._ssl) with a second pool's request nested at every trace event of the first; I/O through a pre-TLS stream object is recorded by the network. Every combination of scheme, port form, proxy mode, http1/http2 switches, ALPN outcome and sni_hostname, and every request sequence of length 2-3 over origin pairs that differ in one component: destination, TLS-iff-https/wss, SNI, ALPN offer and protocol choice are read from what the simulated peers saw.",
     _SEQ_NOTE, "DESIGN.md 5 C10")
 reg("C18", "translation_validation", "translation validation of every line of _sync against unasync(_async) + lock-step differential exploration of sync vs async on the same choice trees",
     "(a) every file and line of httpcore/_sync equals the in-memory translation of httpcore/_async by the repository's own translator, no async/await token survives; (b) every execution of the sequential fault/segmentation/retry choice trees is run on the sync classes and replayed with the same choices on the async classes: choice-point labels, ledgers, outcomes, pool states and oracle verdicts must agree.",
@@ -42,7 +42,7 @@ reg("C09", "model_checking", "explicit-state BFS over pool operation sequences w
     "All sequences (depth 4 quick / 5 thorough) of request/open/close/tick/server-close over three origins per pool configuration, HTTP/1.1 and HTTP/2, both variants (and, shallower, all ten TLS / negotiated / proxied connection types); every removal from the pool is judged against what the pool holds at that moment; states merged so deeper states are reached by chaining; rules R1 reuse, R2 idle limit, R3 dead connections never used and closed, R4 every close of a healthy idle connection explained.",
     _SEQ_NOTE + " time.monotonic in http11/http2 is redirected to the virtual clock by rebinding the module-level name.", "DESIGN.md 5 C09")
 reg("C11", "exploration", "exhaustive enumeration of proxy configurations and proxy replies, judged from the bytes the simulated proxy saw before/after the tunnel boundary",
-    "Full product of proxy kind, credentials, proxy headers (with case-insensitive collisions), origin (incl. IP literals), request headers/body, request extensions (sni_hostname, target) and proxy reply (CONNECT statuses, SOCKS method/auth/connect replies); the proxy peer's own byte-level parsers decide what reached which hop.",
+    "Both pool construction styles (ConnectionPool(proxy=...), HTTPProxy / SOCKSProxy objects); a Request object sent a second time. Full product of proxy kind, credentials, proxy headers (with case-insensitive collisions), origin (incl. IP literals), request headers/body, request extensions (sni_hostname, target) and proxy reply (CONNECT statuses, SOCKS method/auth/connect replies); the proxy peer's own byte-level parsers decide what reached which hop.",
     _SEQ_NOTE, "DESIGN.md 5 C11")
 reg("C16", "model_checking", "ledger-based enumeration of timeout configurations with one read cut anywhere (explorer, bound 1) + pool-timeout scenarios on the virtual clock",
     "The limit in effect at every OS-level operation of the real sync/anyio/trio backends (settimeout value, innermost fail_after scope) is recorded too; PoolTimeout also under trio. Every simulated connect/start_tls/read/write of every connection type records its timeout argument and is compared with the configured value for 10 configurations; all orders of deadline vs release for queued requests, PoolTimeout exactly at enqueue+T.",
